@@ -8,6 +8,7 @@ import gc
 import inspect
 import sys
 import threading
+import types
 from collections import OrderedDict
 from enum import Enum
 from functools import partial, wraps
@@ -700,6 +701,7 @@ origin_type_checkers = {
     Union: check_union
 }
 _subclass_check_unions = hasattr(Union, '__union_set_params__')
+_UnionType = getattr(types, 'UnionType', ())  # Python 3.10+
 if Literal is not None:
     origin_type_checkers[Literal] = check_literal
 
@@ -752,6 +754,9 @@ def check_type(argname: str, value, expected_type, memo: Optional[_TypeCheckMemo
 
     expected_type = resolve_forwardref(expected_type, memo)
     origin_type = getattr(expected_type, '__origin__', None)
+    if origin_type is None and isinstance(expected_type, _UnionType):
+        # `X | Y` (PEP 604) has `__args__` like `Union[X, Y]`, but no `__origin__`.
+        origin_type = Union
     if origin_type is not None:
         checker_func = origin_type_checkers.get(origin_type)
         if checker_func:
